@@ -25,9 +25,9 @@ ID = 'C20'
 LEAN_MODULE = 'CC.Properties.C20'
 LEVEL = 'proof'
 THEOREMS = [
-    'CC.C20_frame_rows', 'CC.C20_frame', 'CC.C20_frame_exceptions_exact', 'CC.C20_defaults',
+    'CC.C20_frame_rows', 'CC.C20_frame', 'CC.C20_frame_exceptions_exact', 'CC.C20_frame_all', 'CC.C20_defaults',
     'CC.C20_no_global_writes', 'CC.C20_no_unknown_callee',
-    'CC.C20_history', 'CC.C20_history_frame', 'CC.C20_pure_history', 'CC.C20_loaders_sound',
+    'CC.C20_history', 'CC.C20_history_frame', 'CC.C20_pure_history', 'CC.C20_loaders_sound', 'CC.C20_loader_histories',
 ]
 OPEN_STATEMENTS = []
 ASSUMPTIONS = [
@@ -381,7 +381,82 @@ def snap_tables(tables):
 
 # --------------------------------------------------------------------------- one history
 
+# the conversions of dump_load.py (they used to work in place and return their argument)
 IN_PLACE = {'dictify_complex_values', 'undictify_complex_values', 'dictify_all_complex_values', 'undictify_all_complex_values'}
+
+def do_step(ctx, out, pool, ops, effects, defaults, tables, name, keys, lit, hist_no, step, trace):
+    """one operation on shared pool objects: snapshots, write-set check, isolated evaluation; returns the in-history outcome"""
+    quals, argkinds, run, litgen = ops[name]
+    args = {p: pool.obj[k] for p, k in keys.items()}
+    out.evaluations += 1
+    out.count('op:' + name)
+    trace.append((name, dict(keys), {k: (v if isinstance(v, (int, float, str, bool)) else str(v)) for k, v in lit.items()}))
+    before = pool.snapshot()
+    d_before = [snap(o) for _, _, o in defaults]
+    t_before = snap_tables(tables)
+    res_h = outcome(lambda: run(args, lit))
+    res_h_s = snap(res_h)
+    after = pool.snapshot()
+    d_after = [snap(o) for _, _, o in defaults]
+    t_after = snap_tables(tables)
+    returned_arg = None
+    if name in IN_PLACE and res_h[0] == 'ok':
+        returned_arg = res_h[1] is args['data']
+    # ---- what changed
+    changed = [k for k in before if before[k] != after[k]]
+    predicted = set()
+    for q in quals:
+        ws = effects.get(q)
+        if ws is None:
+            predicted |= set(keys.values())
+        else:
+            predicted |= {keys[p] for p in ws if p in keys}
+    if any(k not in predicted for k in changed) and predicted:
+        reach = set().union(*[mutable_ids(pool.obj[p]) for p in predicted])
+        predicted |= {k for k in changed if mutable_ids(pool.obj[k]) & reach}      # aliases of a written argument
+    for k in changed:
+        param = next((p for p, kk in keys.items() if kk == k), None)
+        if k not in predicted:
+            out.disagree('effects', dict(history=hist_no, step=step, op=name, object=k),
+                         dict(changed=k, param=param), dict(predicted=sorted(predicted), functions=quals),
+                         note='the generated effect summary does not cover a write that happened')
+        canon = dict(op=name, symptom='argument_mutated', param=param or 'not-an-argument', kind=pool.kind[k])
+        if name == 'to_complex': canon['degree'] = bool(lit.get('deg'))
+        out.spec_fail(canon, f'{name} changed the {pool.kind[k]} object passed as {param!r}',
+                      dict(history=hist_no, step=step, trace=trace[-6:]), impl=dict(before=str(before[k])[:300], after=str(after[k])[:300]),
+                      spec='no operation mutates the objects passed to it')
+        pool.taint.setdefault(k, name)
+    for (fq, pn, _), b, a_ in zip(defaults, d_before, d_after):
+        if b != a_:
+            out.spec_fail(dict(op=name, symptom='default_mutated', function=fq, param=pn),
+                          f'{name} changed the mutable default {pn!r} of {fq}', dict(history=hist_no, step=step, trace=trace[-6:]),
+                          impl=dict(before=str(b), after=str(a_)))
+    if t_before != t_after:
+        diff = sorted(n for n in t_before if t_before[n] != t_after[n])
+        out.spec_fail(dict(op=name, symptom='module_table_mutated', table=','.join(diff)), f'{name} changed a module-level table',
+                      dict(history=hist_no, step=step, trace=trace[-6:]))
+    # ---- isolated evaluation on fresh deep copies of the pristine objects
+    iso_args = {p: copy.deepcopy(pool.pristine[k]) for p, k in keys.items()}
+    res_i = outcome(lambda: run(iso_args, lit))
+    res_i_s = snap(res_i)
+    out.traces_validated += 1
+    if res_h_s != res_i_s:
+        tainted = sorted({pool.taint[k] for k in keys.values() if k in pool.taint})
+        if not tainted and numeric_close(res_h_s, res_i_s):
+            out.skip('float_noise_between_identical_calls')
+        else:
+            loaders = {'load_network', 'to_complex', 'dictify_complex_values', 'undictify_complex_values',
+                       'dictify_all_complex_values', 'undictify_all_complex_values'}
+            cls = 'none' if not tainted else 'loader' if set(tainted) <= loaders else 'other'
+            out.spec_fail(dict(op=name, symptom='history_dependent', tainted_by=','.join(tainted) or 'none', taint_class=cls),
+                          f'{name} gives a different result inside the history than in isolation' +
+                          (f' (argument earlier changed by {", ".join(tainted)})' if tainted else ''),
+                          dict(history=hist_no, step=step, trace=trace[-8:]), impl=dict(in_history=str(res_h_s)[:400], isolated=str(res_i_s)[:400]))
+    else:
+        out.nontrivial((name, res_h[0], tuple(sorted(pool.kind[k] for k in keys.values()))))
+    if returned_arg is True and isinstance(args['data'], (dict, list)):
+        out.disagree('returns_new_object', dict(history=hist_no, step=step, op=name), 'returned its argument', 'the model says: a new container')
+    return res_h
 
 def run_history(ctx, out, ops, effects, defaults, tables, rng, n_ops, hist_no):
     pool = make_pool(rng)
@@ -416,74 +491,7 @@ def run_history(ctx, out, ops, effects, defaults, tables, rng, n_ops, hist_no):
                            ('voltage_ids', [x.id for x in c.components if x.type != 'ground']),
                            ('current_ids', [x.id for x in c.components if x.type != 'ground'])):
                 pass        # the shared id lists may name unknown ids: the exception is a result like any other
-        out.evaluations += 1
-        out.count('op:' + name)
-        trace.append((name, dict(keys), {k: (v if isinstance(v, (int, float, str, bool)) else str(v)) for k, v in lit.items()}))
-        before = pool.snapshot()
-        d_before = [snap(o) for _, _, o in defaults]
-        t_before = snap_tables(tables)
-        res_h = outcome(lambda: run(args, lit))
-        res_h_s = snap(res_h)
-        after = pool.snapshot()
-        d_after = [snap(o) for _, _, o in defaults]
-        t_after = snap_tables(tables)
-        returned_arg = None
-        if name in IN_PLACE and res_h[0] == 'ok':
-            returned_arg = res_h[1] is args['data']
-        # ---- what changed
-        changed = [k for k in before if before[k] != after[k]]
-        predicted = set()
-        for q in quals:
-            ws = effects.get(q)
-            if ws is None:
-                predicted |= set(keys.values())
-            else:
-                predicted |= {keys[p] for p in ws if p in keys}
-        if any(k not in predicted for k in changed) and predicted:
-            reach = set().union(*[mutable_ids(pool.obj[p]) for p in predicted])
-            predicted |= {k for k in changed if mutable_ids(pool.obj[k]) & reach}      # aliases of a written argument
-        for k in changed:
-            param = next((p for p, kk in keys.items() if kk == k), None)
-            if k not in predicted:
-                out.disagree('effects', dict(history=hist_no, step=step, op=name, object=k),
-                             dict(changed=k, param=param), dict(predicted=sorted(predicted), functions=quals),
-                             note='the generated effect summary does not cover a write that happened')
-            canon = dict(op=name, symptom='argument_mutated', param=param or 'not-an-argument', kind=pool.kind[k])
-            if name == 'to_complex': canon['degree'] = bool(lit.get('deg'))
-            out.spec_fail(canon, f'{name} changed the {pool.kind[k]} object passed as {param!r}',
-                          dict(history=hist_no, step=step, trace=trace[-6:]), impl=dict(before=str(before[k])[:300], after=str(after[k])[:300]),
-                          spec='no operation mutates the objects passed to it')
-            pool.taint.setdefault(k, name)
-        for (fq, pn, _), b, a_ in zip(defaults, d_before, d_after):
-            if b != a_:
-                out.spec_fail(dict(op=name, symptom='default_mutated', function=fq, param=pn),
-                              f'{name} changed the mutable default {pn!r} of {fq}', dict(history=hist_no, step=step, trace=trace[-6:]),
-                              impl=dict(before=str(b), after=str(a_)))
-        if t_before != t_after:
-            diff = sorted(n for n in t_before if t_before[n] != t_after[n])
-            out.spec_fail(dict(op=name, symptom='module_table_mutated', table=','.join(diff)), f'{name} changed a module-level table',
-                          dict(history=hist_no, step=step, trace=trace[-6:]))
-        # ---- isolated evaluation on fresh deep copies of the pristine objects
-        iso_args = {p: copy.deepcopy(pool.pristine[k]) for p, k in keys.items()}
-        res_i = outcome(lambda: run(iso_args, lit))
-        res_i_s = snap(res_i)
-        out.traces_validated += 1
-        if res_h_s != res_i_s:
-            tainted = sorted({pool.taint[k] for k in keys.values() if k in pool.taint})
-            if not tainted and numeric_close(res_h_s, res_i_s):
-                out.skip('float_noise_between_identical_calls')
-            else:
-                loaders = {'load_network', 'to_complex', 'dictify_complex_values', 'undictify_complex_values',
-                           'dictify_all_complex_values', 'undictify_all_complex_values'}
-                cls = 'none' if not tainted else 'loader' if set(tainted) <= loaders else 'other'
-                out.spec_fail(dict(op=name, symptom='history_dependent', tainted_by=','.join(tainted) or 'none', taint_class=cls),
-                              f'{name} gives a different result inside the history than in isolation' +
-                              (f' (argument earlier changed by {", ".join(tainted)})' if tainted else ''),
-                              dict(history=hist_no, step=step, trace=trace[-8:]), impl=dict(in_history=str(res_h_s)[:400], isolated=str(res_i_s)[:400]))
-        else:
-            out.nontrivial((name, res_h[0], tuple(sorted(pool.kind[k] for k in keys.values()))))
-        if returned_arg is False:
-            out.notes.append(f'{name} returned a new object (the model says: its argument)')
+        res_h = do_step(ctx, out, pool, ops, effects, defaults, tables, name, keys, lit, hist_no, step, trace)
         # ---- keep the history going: results join the pool, tainted objects are sometimes restored
         if res_h[0] == 'ok' and type(res_h[1]).__name__ == 'Network' and len(pool.keys('network')) < 6 and rng.random() < 0.4:
             pool.add(f'net{len(pool.keys("network"))}r', 'network', res_h[1])
@@ -491,6 +499,42 @@ def run_history(ctx, out, ops, effects, defaults, tables, rng, n_ops, hist_no):
             if rng.random() < 0.4:
                 pool.obj[k] = copy.deepcopy(pool.pristine[k]); del pool.taint[k]
     return True
+
+# --------------------------------------------------------------------------- corpus: the former failing histories
+
+def corpus_pool():
+    """the minimal inputs of the findings fixed by b501fa0 / cd8d9e4 / 2481879 (they must pass now and are
+    reported again if a fix is reverted)"""
+    p = Pool()
+    p.add('desc0', 'desc', [{'type': 'resistor', 'id': 'R1', 'N1': '1', 'N2': '0', 'R': 10},
+                            {'type': 'admittance', 'id': 'Y1', 'N1': '1', 'N2': '0', 'Y': {'abs': 2, 'phase': 0.5}}])
+    p.add('z0', 'znote', {'abs': 2, 'phase': 30})
+    p.add('tree0', 'tree', {'z': {'real': 1, 'imag': 2}, 'l': [{'w': {'abs': 1, 'phase': 0.5}}, 3, 'n'], 'c': complex(1, 2), 'nodes': ['0', '1']})
+    return p
+
+CORPUS_HISTORY = [('load_network', {'network_dict': 'desc0'}, {}), ('load_network', {'network_dict': 'desc0'}, {}),
+                  ('to_complex', {'z': 'z0'}, {'deg': True}), ('to_complex', {'z': 'z0'}, {'deg': True}),
+                  ('undictify_complex_values', {'data': 'tree0'}, {}), ('undictify_all_complex_values', {'data': 'tree0'}, {}),
+                  ('dictify_complex_values', {'data': 'tree0'}, {}), ('dictify_all_complex_values', {'data': 'tree0'}, {}),
+                  ('serialize', {'data': 'tree0'}, {'fmt': 'json'}), ('serialize', {'data': 'tree0'}, {'fmt': 'yaml'}),
+                  ('undictify_all_complex_values', {'data': 'tree0'}, {}), ('load_network', {'network_dict': 'desc0'}, {})]
+
+def run_corpus(ctx, out, ops, effects, defaults, tables):
+    pool = corpus_pool()
+    trace = []
+    first = {}
+    for step, (name, keys, lit) in enumerate(CORPUS_HISTORY):
+        res = do_step(ctx, out, pool, ops, effects, defaults, tables, name, keys, lit, 'corpus', step, trace)
+        key = (name, json.dumps(keys, sort_keys=True), json.dumps(lit, sort_keys=True))
+        s_ = snap(res)
+        if key in first and first[key] != s_:
+            out.spec_fail(dict(op=name, symptom='repeat_differs'), f'{name} repeated on the same object gives a different result',
+                          dict(history='corpus', step=step, trace=trace[-6:]), impl=dict(first=str(first[key])[:300], now=str(s_)[:300]))
+        first.setdefault(key, s_)
+        if res[0] == 'err':
+            out.spec_fail(dict(op=name, symptom='corpus_step_raises', exc=res[1], step=step), f'corpus step {step} ({name}) raises {res[1]}',
+                          dict(history='corpus', step=step, trace=trace[-6:]))
+    out.count('corpus_history')
 
 # --------------------------------------------------------------------------- loader histories on the Lean heap machine
 
@@ -538,8 +582,9 @@ def loader_history(ctx, out, rng, n_ops):
             same_out = c17.res_same(mo['res'], kind, c17.component_wire(val) if kind == 'ok' else val, c17.comp_same)
         elif mo['kind'] == 'circ':
             same_out = c17.res_same(mo['res'], kind, c17.circuit_wire(val) if kind == 'ok' else val, c17.circ_same)
-        elif mo['kind'] == 'inplace':
-            same_out = (('ok' in mo['res']) == (kind == 'ok')) and (kind == 'err' and mo['res'].get('err') == val or kind == 'ok' and val is v and mo['cell'] == o['cell'])
+        elif mo['kind'] == 'tree':
+            same_out = c17.res_same(mo['res'], kind, c17.enc(val) if kind == 'ok' else val, c17.same) and \
+                not (kind == 'ok' and isinstance(v, (dict, list)) and val is v)
         else:
             same_out = False
         same_heap = len(ms['heap']) == len(wire) and all(c17.same(a, b) for a, b in zip(ms['heap'], wire))
@@ -588,6 +633,7 @@ def run(ctx, out):
     out.extra['summary'] = dict(functions=len(effects), in_scope=len(in_scope), exceptions=exceptions,
                                 unknown_calls=raw.get('unknown_calls'), assumed_callables=len(raw.get('assumed_callables', [])))
     n_hist, n_ops = (150, 25) if ctx.quick else (2000, 100)
+    run_corpus(ctx, out, ops, effects, defaults, tables)
     done = 0
     for hno in range(n_hist):
         if ctx.time_left() < 12:
@@ -616,7 +662,10 @@ def replay(ctx, out, rp):
     ops = build_ops()
     defaults, tables = collect_defaults()
     n_ops = (25 if rp.get('tier', 'quick') == 'quick' else 100)
-    run_history(ctx, out, ops, effects, defaults, tables, ctx.rng('history', hno), n_ops, hno)
+    if hno == 'corpus':
+        run_corpus(ctx, out, ops, effects, defaults, tables)
+    else:
+        run_history(ctx, out, ops, effects, defaults, tables, ctx.rng('history', hno), n_ops, hno)
     known = [f for f in core.load_known_findings() if f['property'] == ID and f.get('status') == 'open']
     out.spec_failures = [sf for sf in out.spec_failures if not any(core.matches(f['matcher'], sf['canon']) for f in known)
                          or core.matches(rp.get('canon', {}), sf['canon'])]
